@@ -18,6 +18,9 @@ type Node struct {
 	Size     int64       // reported size; may be symbolic
 	Data     []byte      // content served by Read
 	Children []*Node     // listing order
+	// Target, for a symlink node: what Stat and Open resolve to (directory entries and their Info()
+	// describe the link itself). nil: the link node stands for its own target.
+	Target *Node
 }
 
 // Dir makes a directory node.
@@ -89,6 +92,9 @@ func (f *FS) Stat(name string) (fs.FileInfo, error) {
 	if n == nil {
 		return nil, notExist("stat", name)
 	}
+	if n.Mode&fs.ModeSymlink != 0 && n.Target != nil {
+		n = n.Target
+	}
 	return info{n}, nil
 }
 
@@ -100,6 +106,9 @@ func (f *FS) Open(name string) (fs.File, error) {
 	n := f.Lookup(name)
 	if n == nil {
 		return nil, notExist("open", name)
+	}
+	if n.Mode&fs.ModeSymlink != 0 && n.Target != nil {
+		n = n.Target
 	}
 	return &handle{fs: f, n: n, path: name}, nil
 }
